@@ -30,7 +30,7 @@ def run(ctx):
     # search of the regenerated schedule for a concrete conflict (also the replay when the proof breaks)
     bounds = ("10", "20") if ctx.tier == "quick" else ("14", "28")
     ctx.pipe(["true"], f"sched {bounds[0]} {bounds[1]}", label="schedule-search")
-    # footprint tie: every vector kernel of the six residual / smoother regions is called once per line and colour on the real
+    # footprint tie: every kernel of the twelve regions (vector kernels and matrix assemblies) is called once per line and colour on the real
     # classes; observed writes / reads must lie inside the model's footprints, and the generated schedule is searched for a
     # conflict on the OBSERVED footprints
     h = ctx.build_harness("h_foot")
@@ -39,9 +39,10 @@ def run(ctx):
         tsan(ctx)
     ctx.assumptions += ["the OpenMP runtime and memory model are trusted: a program without data races behaves as some interleaving of its iterations; "
                         "schedule(static) default; barrier at the end of every `omp for` without nowait",
-                        "kernel footprints (which rows / lines a kernel call touches) are hand-written (GMGModel/Sched.lean); for the 6 vector-kernel "
-                        "classes they are checked against the real member functions on every run (h_foot: perturbation probe, observed ⊆ model); "
-                        "for the 6 matrix-assembly classes they are validated only by ThreadSanitizer in the thorough tier",
+                        "kernel footprints (which rows / lines a kernel call touches) are hand-written (GMGModel/Sched.lean); for all 12 region "
+                        "classes they are checked against the real member functions on every run (h_foot: one call per kernel x line x colour on random "
+                        "backgrounds, written cells by change detection, read cells by single-cell perturbation; observed ⊆ model); a write that stores "
+                        "the value already present on both random backgrounds would go unobserved",
                         "36 further `parallel for` / owner-computes regions (transfers, level caches, rhs, vector kernels, exact error) are outside the schedule "
                         "model; they are covered by the ThreadSanitizer runs only"]
 
